@@ -37,8 +37,9 @@ theorem quic_read_conds_src : quic_read_conds = "n < DNSHeaderSize | err != nil 
 theorem quic_stream_conds_src : quic_stream_conds = "err != nil | !validQUICMsg(msg) | !written | err != nil" := by decide
 theorem quic_servfail_args_src : quic_servfail_args = "msg, dns.RcodeServerFailure" := by decide
 theorem quic_valid_conds_src : quic_valid_conds = "opt != nil | option.Option() == dns.EDNS0TCPKEEPALIVE" := by decide
-/-- DNSCrypt: nothing written ⇒ synthesised SERVFAIL. -/
-theorem dnscrypt_conds_src : dnscrypt_conds = "written" := by decide
+/-- DNSCrypt: nothing written ⇒ synthesised SERVFAIL (since the C08 repair the request's UDP size is
+lowered to the configured maximum before the library writes). -/
+theorem dnscrypt_conds_src : dnscrypt_conds = "written | opt != nil && network == NetworkUDP" := by decide
 theorem dnscrypt_servfail_args_src : dnscrypt_servfail_args = "r, dns.RcodeServerFailure" := by decide
 /-- DoH: bad request ⇒ 400, nothing written ⇒ 500. -/
 theorem doh_conds_src : doh_conds = "err != nil | !written | err != nil" := by decide
